@@ -259,7 +259,11 @@ func guardedUse(c *Ctx, fn *ssa.Function, call ssa.CallInstruction, ev *cfgx.Err
 				bad = u
 				continue
 			}
-			if okc, wit := cfgx.MustCross(u, ev.OK, c.posf()); !okc {
+			gates := append([]cfgx.Edge{}, ev.OK...)
+			for _, es := range ev.PredTrue {
+				gates = append(gates, es...) // `if err != nil && !IsNotFound(err) { return }`: the use after a named kind of error is deliberate
+			}
+			if okc, wit := cfgx.MustCross(u, gates, c.posf()); !okc {
 				bad, w = u, wit
 			}
 		}
